@@ -1194,6 +1194,9 @@ func (in *Interp) indexAddr(fr *frame, x *ssa.IndexAddr) Value {
 		}
 		return &Ptr{Root: b.Root, Path: elemPath(b.Path, int(k)), Nil: bdd.False}
 	case *Slice:
+		if b.Rope != nil {
+			in.undecided(x.Pos(), "element access into the result of append")
+		}
 		if b.Sym != "" && (!isConst || b.LoV != nil) {
 			idx := in.C.Resize(iv, in.intWidth(), false)
 			if b.LoV != nil {
@@ -1263,6 +1266,9 @@ func (in *Interp) slice(fr *frame, x *ssa.Slice) Value {
 		if x.Low == nil && x.High == nil {
 			return b
 		}
+		if b.Rope != nil {
+			in.undecided(x.Pos(), "slice of the result of append")
+		}
 		w := in.intWidth()
 		bound := func(v ssa.Value, def dom.BV) dom.BV {
 			if v == nil {
@@ -1290,8 +1296,121 @@ func (in *Interp) slice(fr *frame, x *ssa.Slice) Value {
 			}
 		}
 	}
+	if sv, ok := base.(*Str); ok && sv.Sym != "" && x.Max == nil {
+		// prefix of a symbolic string: s[:hi]
+		if x.Low != nil {
+			if lv, ok := in.operand(fr, x.Low).(dom.BV); ok {
+				if k, isc := lv.IsConst(); !isc || k != 0 {
+					in.undecided(x.Pos(), "string slice with a non-zero lower bound")
+				}
+			}
+		}
+		if x.High == nil {
+			return sv
+		}
+		if hv, ok := in.operand(fr, x.High).(dom.BV); ok {
+			return &Str{Sym: sv.Sym, Len: in.C.Resize(hv, in.intWidth(), true)}
+		}
+	}
 	in.undecided(x.Pos(), "unsupported slice expression on %T", base)
 	return nil
+}
+
+// SymElem is element idx of the symbolic slice or string sym (the atom
+// Init(sym[idx]) unless the element was stored to).
+func (in *Interp) SymElem(st *State, sym string, idx int, elemT types.Type) Value {
+	r := "elems:" + sym
+	if _, ok := in.roots[r]; !ok {
+		in.roots[r] = &rootInfo{Symbolic: true, Prefix: sym}
+	}
+	return in.loadAt(st, r, in.roots[r], elemPath("", idx), elemT)
+}
+
+// RopeOf renders a byte slice (or string) as rope segments.
+func (in *Interp) RopeOf(st *State, v Value) ([]Seg, bool) {
+	byteT := types.Typ[types.Uint8]
+	switch s := v.(type) {
+	case *Str:
+		if s.Const != nil {
+			var bs []dom.BV
+			for i := 0; i < len(*s.Const); i++ {
+				bs = append(bs, in.C.Const(8, uint64((*s.Const)[i])))
+			}
+			return []Seg{{Bytes: bs}}, true
+		}
+		if s.Sym != "" {
+			return []Seg{{Sym: s.Sym, Len: s.Len}}, true
+		}
+	case *Slice:
+		switch {
+		case s.Rope != nil:
+			return s.Rope, true
+		case s.Sym != "":
+			if s.LoV != nil {
+				return nil, false
+			}
+			return []Seg{{Sym: s.Sym, Lo: s.Lo, Len: s.Len}}, true
+		default:
+			n, isc := s.Len.IsConst()
+			if !isc || n > maxArrayLeaves {
+				return nil, false
+			}
+			var bs []dom.BV
+			for i := 0; i < int(n); i++ {
+				ev, ok := st.Get(s.Root, elemPath(s.Path, s.Lo+i))
+				bv, ok2 := ev.(dom.BV)
+				if !ok {
+					ri := in.roots[s.Root]
+					if ri == nil {
+						return nil, false
+					}
+					bv, ok2 = in.loadAt(st, s.Root, ri, elemPath(s.Path, s.Lo+i), byteT).(dom.BV)
+				}
+				if !ok2 || len(bv) != 8 {
+					return nil, false
+				}
+				bs = append(bs, bv)
+			}
+			if len(bs) == 0 {
+				return []Seg{}, true
+			}
+			return []Seg{{Bytes: bs}}, true
+		}
+	}
+	return nil, false
+}
+
+// appendBuiltin models append on byte slices: the result is a rope.
+func (in *Interp) appendBuiltin(args []Value, st *State, x *ssa.Call) (Value, bool) {
+	st0, ok := x.Call.Args[0].Type().Underlying().(*types.Slice)
+	if !ok {
+		return nil, false
+	}
+	if b, ok := st0.Elem().Underlying().(*types.Basic); !ok || b.Kind() != types.Uint8 {
+		return nil, false
+	}
+	a, ok1 := in.RopeOf(st, args[0])
+	if s0, isS := args[0].(*Slice); isS && s0.Nil == bdd.True {
+		a, ok1 = []Seg{}, true
+	}
+	b, ok2 := in.RopeOf(st, args[1])
+	if s1, isS := args[1].(*Slice); isS && s1.Nil == bdd.True {
+		b, ok2 = []Seg{}, true
+	}
+	if !ok1 || !ok2 {
+		return nil, false
+	}
+	w := in.intWidth()
+	rope := append(append([]Seg{}, a...), b...)
+	total := in.C.Const(w, 0)
+	for _, sg := range rope {
+		if sg.Bytes != nil {
+			total = in.C.AddK(total, int64(len(sg.Bytes)))
+		} else {
+			total = in.C.Add(total, sg.Len)
+		}
+	}
+	return &Slice{Nil: bdd.False, Len: total, Rope: rope}, true
 }
 
 func (in *Interp) unop(fr *frame, x *ssa.UnOp, pred bdd.Node, st *State) Value {
@@ -1553,6 +1672,10 @@ func (in *Interp) callInstr(fr *frame, x *ssa.Call, pred bdd.Node, st *State) Va
 			if v, ok := in.copyBuiltin(args, pred, st, x); ok {
 				return v
 			}
+		case "append":
+			if v, ok := in.appendBuiltin(args, st, x); ok {
+				return v
+			}
 		}
 		in.undecided(x.Pos(), "unsupported builtin %s", b.Name())
 	}
@@ -1805,7 +1928,10 @@ func (in *Interp) lookup(fr *frame, x *ssa.Lookup, pred bdd.Node) Value {
 func (in *Interp) copyBuiltin(args []Value, pred bdd.Node, st *State, x *ssa.Call) (Value, bool) {
 	dst, ok1 := args[0].(*Slice)
 	src, ok2 := args[1].(*Slice)
-	if !ok1 || !ok2 {
+	if sv, isStr := args[1].(*Str); isStr && sv.Sym != "" {
+		src, ok2 = &Slice{Sym: sv.Sym, Nil: bdd.False, Len: sv.Len}, true
+	}
+	if !ok1 || !ok2 || dst.Rope != nil || src.Rope != nil {
 		return nil, false
 	}
 	C := in.C
